@@ -449,6 +449,15 @@ class Executor(object):
             p.env[st.name] = Func(fctx.qual + "." + st.name, st, fctx.module, closure=None) if False else _closure(fctx, st, p)
             return [(p, "normal", None)]
         if isinstance(st, ast.Delete):
+            # `del x[k]` on a container that has a sidecar model
+            if len(st.targets) == 1 and isinstance(st.targets[0], ast.Subscript) and not isinstance(st.targets[0].slice, ast.Slice):
+                ((p1, base),) = self.ev(st.targets[0].value, p, fctx)
+                ((p1, idx),) = self.ev(st.targets[0].slice, p1, fctx)
+                cls = p1.obj(base).cls if isinstance(base, Ref) else type(base).__name__
+                h = self.contracts.methods.get((cls, "__delitem__"))
+                if h:
+                    p1 = p1.fork()
+                    return [(h(self, p1, base, idx, ln), "normal", None)]
             raise Unsupported("del at line %s" % ln)
         raise Unsupported("statement %s at line %s" % (type(st).__name__, ln))
 
